@@ -68,7 +68,7 @@ func checkC04(ctx *Ctx) {
 	if !ctx.Quick {
 		iters = 6000
 	}
-	res.Rule = "per scheme: pool of accepted in-scope versions, pairwise non-equivalent, sorted by the implementation; every iteration draws a valid comparator shape (optional leading upper bound, lower/upper pairs, optional trailing lower bound, '=' points, '!=' exclusions) over 1..8 of them, shuffles the constraints, and probes with the bounds, their neighbours and random pool members; vers.Contains is compared with the union-of-intervals statement evaluated with the implementation's Compare, and with the VERS model (lower layers answered by the implementation). non-trivial = distinct (range, probe) cases with at least one bound constraint"
+	res.Rule = "per scheme: pool of accepted in-scope versions, pairwise non-equivalent, sorted by the implementation; every iteration draws a valid comparator shape (optional leading upper bound, lower/upper pairs, optional trailing lower bound, '=' points, '!=' exclusions) over 1..8 of them, shuffles the constraints, and probes with the bounds, their neighbours, random pool members and other spellings of the bounds that the ecosystem calls equal to them; vers.Contains is compared with the union-of-intervals statement evaluated with the implementation's Compare, and with the VERS model (lower layers answered by the implementation). non-trivial = distinct (range, probe) cases with at least one bound constraint"
 	shapes := map[string]int{}
 	distinct := map[string]bool{}
 	for _, scheme := range schemeNames {
@@ -133,13 +133,38 @@ func checkC04(ctx *Ctx) {
 			probeIdx[r.Intn(len(vs))] = true
 			probeIdx[0] = true
 			probeIdx[len(vs)-1] = true
+			// other spellings of the bounds: texts the ecosystem calls equal to a bound (trailing
+			// zeros, build metadata / local labels, prefix, case) are in a point or an interval
+			// exactly when the bound is
+			type probeT struct {
+				s string
+				v any
+			}
+			var probes []probeT
 			for i := range probeIdx {
-				want := unionSpec(e, scheme, cs, vals[i])
-				ok, isErr, pan := versContains(rng, vs[i])
+				probes = append(probes, probeT{vs[i], vals[i]})
+			}
+			if it%3 == 0 {
+				for _, c := range cs {
+					nv := 0
+					for _, x := range spellingVariants(r, e.Name, c.s) {
+						if nv >= 2 || !isASCII(x) || !boundOK(scheme, x) {
+							continue
+						}
+						if px := e.Parse(x); px.OK && cmpS(e, px.Val, c.v) == 0 && cmpS(e, c.v, px.Val) == 0 {
+							probes = append(probes, probeT{x, px.Val})
+							nv++
+						}
+					}
+				}
+			}
+			for _, pb := range probes {
+				want := unionSpec(e, scheme, cs, pb.v)
+				ok, isErr, pan := versContains(rng, pb.s)
 				res.Evaluations++
 				hasBound := strings.ContainsAny(key, "<>")
 				if hasBound {
-					distinct[rng+"\x00"+vs[i]] = true
+					distinct[rng+"\x00"+pb.s] = true
 				}
 				got := vresString(ok, isErr, pan)
 				exp := "f"
@@ -147,8 +172,8 @@ func checkC04(ctx *Ctx) {
 					exp = "t"
 				}
 				if got != exp {
-					v := Violation{Eco: scheme, Kind: "union-of-intervals", Input: map[string]any{"range": rng, "probe": vs[i], "sorted_constraints": fmtCons(cs)}, Expected: exp, Actual: got}
-					all := []any{vals[i]}
+					v := Violation{Eco: scheme, Kind: "union-of-intervals", Input: map[string]any{"range": rng, "probe": pb.s, "sorted_constraints": fmtCons(cs)}, Expected: exp, Actual: got}
+					all := []any{pb.v}
 					for _, c := range cs {
 						all = append(all, c.v)
 					}
@@ -156,10 +181,10 @@ func checkC04(ctx *Ctx) {
 					res.violate(v)
 				}
 				if len(cases) < 40000 {
-					cases = append(cases, [2]string{rng, vs[i]})
+					cases = append(cases, [2]string{rng, pb.s})
 				}
 				if it == 0 {
-					res.sample(map[string]any{"range": rng, "probe": vs[i], "expected": exp, "impl": got})
+					res.sample(map[string]any{"range": rng, "probe": pb.s, "expected": exp, "impl": got})
 				}
 			}
 		}
